@@ -177,6 +177,34 @@ class C15Oracle(worldprop.Oracle):
                 if refs[0][1] is None or refs[1][1] is None:
                     continue
                 want_paths[(refs[0][1].uri, refs[1][1].uri, DOT_PROV_STYLE[r.get_type()]["label"], bool(via))] += 1
+        # the further ends of an n-ary relation: one labelled edge from its blank node to a node of every other reference
+        got_fans = Counter()
+        blank_tail = {}
+        for e in g.get("edges", []):
+            if e["head"] in blank and e.get("label") and e["tail"] not in blank:      # the first segment carries the relation's label
+                blank_tail[e["head"]] = url_of.get(e["tail"])
+        for h in blank:
+            if blank_tail.get(h) is None:
+                continue                      # a relation drawn without its first end: not a two-ended relation
+            main = [url_of.get(e2["head"]) for e2 in out_edges.get(h, []) if not e2.get("label")]
+            more = sorted((e2.get("label"), url_of.get(e2["head"])) for e2 in out_edges.get(h, []) if e2.get("label"))
+            if more and main and all(m is not None for m in main):      # (a relation drawn without its first end has no fan)
+                got_fans[(tuple(main), tuple(more))] += 1
+        want_fans = Counter()
+        for buri, c in conts:
+            for r in c.get_records():
+                if r.is_element():
+                    continue
+                refs = [(a, v) for a, v in r.formal_attributes if a in PROV_ATTRIBUTE_QNAMES]
+                if len(refs) > 2 and nary and refs[0][1] is not None and refs[1][1] is not None:
+                    more = sorted((a.localpart, v.uri) for a, v in refs[2:] if v is not None)
+                    if more:
+                        want_fans[((refs[1][1].uri,), tuple(more))] += 1
+        if got_fans != want_fans:
+            self.fail(idx, "the further ends of n-ary relations in the drawing differ from the document's", doc=di,
+                      opts=repr(opts), missing=repr(list((want_fans - got_fans).items())[:2])[:400],
+                      extra=repr(list((got_fans - want_fans).items())[:2])[:400], feats=feats)
+            return
         if got_paths != want_paths:
             self.fail(idx, "relation paths in the drawing differ from the two-ended relations of the document", doc=di,
                       opts=repr(opts), missing=repr(list((want_paths - got_paths).items())[:2])[:400],
